@@ -317,7 +317,7 @@ fn break_string(max_width: usize, trim_end: bool, line_end: &str, input: &[&str]
         // No whitespace found, try looking for a punctuation instead
         _ => match (0..max_width_index_in_input)
             .rev()
-            .skip_while(|pos| !is_valid_linebreak(input, *pos))
+            .skip_while(|pos| !is_valid_linebreak(input, *pos, line_end))
             .next()
         {
             // Found a punctuation and what is on its left side is big enough.
@@ -325,7 +325,7 @@ fn break_string(max_width: usize, trim_end: bool, line_end: &str, input: &[&str]
             // Either no boundary character was found to the left of `input[max_chars]`, or the line
             // got too small. We try searching for a boundary character to the right.
             _ => match (max_width_index_in_input..input.len())
-                .skip_while(|pos| !is_valid_linebreak(input, *pos))
+                .skip_while(|pos| !is_valid_linebreak(input, *pos, line_end))
                 .next()
             {
                 // A boundary was found after the line limit
@@ -337,16 +337,27 @@ fn break_string(max_width: usize, trim_end: bool, line_end: &str, input: &[&str]
     }
 }
 
-fn is_valid_linebreak(input: &[&str], pos: usize) -> bool {
+fn is_valid_linebreak(input: &[&str], pos: usize, line_end: &str) -> bool {
     let is_whitespace = is_whitespace(input[pos]);
     if is_whitespace {
         return true;
     }
     let is_punctuation = is_punctuation(input[pos]);
-    if is_punctuation && !is_part_of_type(input, pos) {
+    if is_punctuation && !is_part_of_type(input, pos) && !starts_escape(input, pos, line_end) {
         return true;
     }
     false
+}
+
+/// In a string literal (lines end with a backslash) a backslash that is not itself escaped
+/// starts an escape sequence: a break behind it would cut `\n` into `\` and `n`.
+fn starts_escape(input: &[&str], pos: usize, line_end: &str) -> bool {
+    let backslashes_before = input[..pos]
+        .iter()
+        .rev()
+        .take_while(|g| **g == "\\")
+        .count();
+    line_end == "\\" && input[pos] == "\\" && backslashes_before % 2 == 0
 }
 
 fn is_part_of_type(input: &[&str], pos: usize) -> bool {
